@@ -22,6 +22,7 @@ import (
 	"context"
 	"errors"
 	"fmt"
+	"io"
 	"log/slog"
 	"os"
 	"runtime"
@@ -136,6 +137,14 @@ func (e *env) get(name string) *zap.Logger {
 			}
 		}
 		l = zap.New(zapcore.NewCore(zapcore.NewConsoleEncoder(cfg), e.sink("Y"), zap.DebugLevel), opts...)
+	case "Cr": // console logger with its own reflection encoder (EncoderConfig.NewReflectedEncoder)
+		cfg := consCfg()
+		cfg.NewReflectedEncoder = func(w io.Writer) zapcore.ReflectedEncoder { return tagEnc{w, "console-owned:"} }
+		l = zap.New(zapcore.NewCore(zapcore.NewConsoleEncoder(cfg), e.sink("Cr"), zap.DebugLevel), opts...)
+	case "Jr": // JSON logger with its own reflection encoder
+		cfg := jsonCfg()
+		cfg.NewReflectedEncoder = func(w io.Writer) zapcore.ReflectedEncoder { return tagEnc{w, "json-owned:"} }
+		l = zap.New(zapcore.NewCore(zapcore.NewJSONEncoder(cfg), e.sink("Jr"), zap.DebugLevel), opts...)
 	case "F":
 		l = e.get("J").WithOptions(zap.WithFatalHook(fatalRec{e}))
 	case "X": // failing sink: write errors go to the error output
@@ -162,6 +171,17 @@ type pair struct {
 type yieldStr struct{ s string }
 
 func (y yieldStr) String() string { vsched.Yield(); return "<" + y.s + ">" }
+
+// tagEnc is a user-supplied reflection encoder: every value becomes a tagged JSON string.
+type tagEnc struct {
+	w   io.Writer
+	tag string
+}
+
+func (t tagEnc) Encode(v interface{}) error {
+	_, err := fmt.Fprintf(t.w, "%q\n", t.tag+fmt.Sprint(v))
+	return err
+}
 
 type failObj struct{}
 
@@ -284,6 +304,12 @@ var ops = []op{
 	}},
 	{"cns", "console: namespace left open, reflected value", func(e *env) {
 		e.get("C").Info("m-cns", zap.Namespace("n"), zap.Reflect("r", pair{3, "c"}), zap.Int("a", 1))
+	}},
+	{"cre", "console logger configured with its own reflection encoder: reflected values in the entry and in derived context", func(e *env) {
+		e.get("Cr").With(zap.Reflect("ctx", pair{7, "c"})).Info("m-cre", zap.Reflect("r", pair{8, "<c>"}), zap.Int("a", 1))
+	}},
+	{"jre", "JSON logger configured with its own reflection encoder: reflected values in the entry and in derived context", func(e *env) {
+		e.get("Jr").With(zap.Reflect("ctx", pair{5, "j"})).Info("m-jre", zap.Reflect("r", pair{6, "<j>"}), zap.Array("arr", nestArr{1}))
 	}},
 	{"cc", "console: logger with namespaced context", func(e *env) { e.get("Cc").Info("m-cc", zap.Int("k", 5)) }},
 	{"cnof", "console: no fields at all (empty context)", func(e *env) { e.get("C").Named("nm").Info("m-cnof") }},
